@@ -26,6 +26,7 @@ EXPLANATION = (
     "can drop elements (zip as receiver, take_while, filter, step_by, ...). Not decided: full equality of the stack/heap splitter "
     "with json_pointer::parse for 0..40 segments (loop-carried "
     "values), the derive macro's generated code, decoding of arbitrary body bytes (serde/beve)."
+    ' (request-is-the-routing-key, closed over delegations) every in-crate function that receives a request and delegates to HandlerErased::handle* / Middleware::handle / Next::run hands on the request it received.'
 )
 ASSUMPTIONS = ["str::strip_prefix / starts_with / split have their std semantics"]
 
